@@ -90,6 +90,7 @@ type Path struct {
 	Results   []*Expr
 	End       *ssa.BasicBlock
 	Cells     map[string]*Expr // final content by address string
+	Allocs    map[string]bool  // addresses allocated on the path
 	Ambiguous string           // non-empty if two impure call sites rendered identically
 	Blocks    []int
 	StopPhis  map[string]*Expr // for Term "stop": values flowing into the phis of the target block, by phi comment
@@ -252,7 +253,7 @@ func (x *SPE) finish(st *pathState, term string, res []*Expr, b *ssa.BasicBlock)
 		x.Overflow = true
 		return
 	}
-	p := &Path{Lits: st.lits, Events: st.events, Term: term, Results: res, End: b, Cells: st.cells, Ambiguous: st.ambig, Blocks: st.blocks}
+	p := &Path{Lits: st.lits, Events: st.events, Term: term, Results: res, End: b, Cells: st.cells, Ambiguous: st.ambig, Blocks: st.blocks, Allocs: st.allocs}
 	x.Paths = append(x.Paths, p)
 }
 
@@ -337,8 +338,8 @@ func (x *SPE) block(st *pathState, b, pred *ssa.BasicBlock) {
 func (x *SPE) instrsFrom(st *pathState, b *ssa.BasicBlock, from int) {
 	for idx := from; idx < len(b.Instrs); idx++ {
 		in := b.Instrs[idx]
-		if call, ok := in.(*ssa.Call); ok && x.Inline != nil {
-			if cal := call.Call.StaticCallee(); cal != nil && cal.Blocks != nil && x.inlineDepth < 2 && x.Inline(cal) {
+		if call, ok := in.(*ssa.Call); ok {
+			if cal := call.Call.StaticCallee(); cal != nil && cal.Blocks != nil && x.inlineDepth < 2 && ((x.Inline != nil && x.Inline(cal)) || defaultInline(cal)) {
 				if x.inlineCall(st, b, idx, call, cal) {
 					return
 				}
@@ -408,8 +409,17 @@ func (x *SPE) instrsFrom(st *pathState, b *ssa.BasicBlock, from int) {
 // inlineCall splices the paths of a pure callee into the current path.
 // Returns false if the call could not be inlined (executed normally then).
 func (x *SPE) inlineCall(st *pathState, b *ssa.BasicBlock, idx int, call *ssa.Call, cal *ssa.Function) bool {
-	if !x.pure.isPure(cal) || len(naturalLoops(cal)) > 0 || len(cal.Blocks) > 40 {
+	if len(naturalLoops(cal)) > 0 || len(cal.Blocks) > 40 {
 		return false
+	}
+	effects := false
+	if !x.pure.isPure(cal) {
+		// a helper whose only effects are its own stores (every call in it is
+		// pure) is executed on the caller's memory
+		if !x.pure.storesOnly(cal) {
+			return false
+		}
+		effects = true
 	}
 	args := make([]*Expr, len(call.Call.Args))
 	for i, a := range call.Call.Args {
@@ -423,6 +433,17 @@ func (x *SPE) inlineCall(st *pathState, b *ssa.BasicBlock, idx int, call *ssa.Ca
 			}
 		}
 		return nil
+	}
+	if effects {
+		sub.InitCell = func(addr *Expr) *Expr {
+			if v, ok := st.cells[addr.String()]; ok {
+				return v
+			}
+			if x.InitCell != nil {
+				return x.InitCell(addr)
+			}
+			return nil
+		}
 	}
 	sub.Explore()
 	if sub.Truncated > 0 || sub.Overflow || len(sub.Paths) == 0 || len(sub.Paths) > 64 {
@@ -457,6 +478,19 @@ func (x *SPE) inlineCall(st *pathState, b *ssa.BasicBlock, idx int, call *ssa.Ca
 				t.litIdx[ev.Val.String()] = ev.Pol
 			}
 			t.events = append(t.events, ev)
+		}
+		if effects {
+			for k, v := range p.Cells {
+				local := false
+				for al := range p.Allocs {
+					if k == al || strings.HasPrefix(k, al+".") || strings.HasPrefix(k, al+"[") {
+						local = true
+					}
+				}
+				if !local {
+					t.cells[k] = v
+				}
+			}
 		}
 		switch len(p.Results) {
 		case 0:
@@ -544,6 +578,13 @@ func normAtom(c *Expr) (*Expr, bool) {
 					continue
 				}
 			case token.LSS:
+				// k < len(x) - c  ==  k + c < len(x)
+				if r.Op == OpBin && r.Tok == token.SUB && len(r.Args) == 2 {
+					if _, isC := r.Args[1].intConst(); isC && r.Args[0].Op == OpBuiltin && r.Args[0].Name == "len" {
+						c = &Expr{Op: OpBin, Tok: token.LSS, Args: []*Expr{foldBin(token.ADD, l, r.Args[1], l.Type, c.Pos), r.Args[0]}, Type: c.Type, Pos: c.Pos}
+						continue
+					}
+				}
 				// 0 < len(x)  ==  !(len(x) == 0)
 				if z, ok := l.intConst(); ok && z == 0 && r.Op == OpBuiltin && (r.Name == "len" || r.Name == "cap") {
 					c = &Expr{Op: OpBin, Tok: token.EQL, Args: []*Expr{r, l}, Type: c.Type, Pos: c.Pos}
@@ -559,6 +600,17 @@ func normAtom(c *Expr) (*Expr, bool) {
 		}
 		return c, pol
 	}
+}
+
+// unslice rewrites x[c:][i] as x[i+c] (c constant, no upper bound): an
+// element of a tail is the element of the whole at the shifted position.
+func unslice(a, i *Expr) (*Expr, *Expr) {
+	if a != nil && a.Op == OpSlice && len(a.Args) == 4 && a.Args[1] != nil && a.Args[2] == nil && a.Args[3] == nil {
+		if _, isC := a.Args[1].intConst(); isC {
+			return a.Args[0], foldBin(token.ADD, i, a.Args[1], i.Type, i.Pos)
+		}
+	}
+	return a, i
 }
 
 func (x *SPE) val(st *pathState, v ssa.Value) *Expr {
@@ -798,10 +850,12 @@ func (x *SPE) instr(st *pathState, in ssa.Instruction) {
 		st.env[in] = &Expr{Op: OpFieldAddr, Args: []*Expr{a}, Name: fld.Name(), Type: in.Type(), Pos: in.Pos()}
 	case *ssa.Index:
 		a, i := x.val(st, in.X), x.val(st, in.Index)
+		a, i = unslice(a, i)
 		st.events = append(st.events, Event{Kind: EvIndex, Addr: a, Val: i, Pos: in.Pos(), Instr: in})
 		st.env[in] = &Expr{Op: OpIndex, Args: []*Expr{a, i}, Type: in.Type()}
 	case *ssa.IndexAddr:
 		a, i := x.val(st, in.X), x.val(st, in.Index)
+		a, i = unslice(a, i)
 		st.events = append(st.events, Event{Kind: EvIndex, Addr: a, Val: i, Pos: in.Pos(), Instr: in})
 		st.env[in] = &Expr{Op: OpIndexAddr, Args: []*Expr{a, i}, Type: in.Type(), Pos: in.Pos()}
 	case *ssa.Lookup:
@@ -903,6 +957,12 @@ func (x *SPE) call(st *pathState, in ssa.Instruction, c *ssa.CallCommon, kind st
 				if f.Name() == "len" && len(args) == 1 {
 					if l := constLen(args[0]); l >= 0 {
 						e = mkConstInt(l, t)
+					} else if sl := args[0]; sl.Op == OpSlice && len(sl.Args) == 4 && sl.Args[1] != nil && sl.Args[2] == nil && sl.Args[3] == nil {
+						// len(x[c:]) = len(x) - c
+						if _, isC := sl.Args[1].intConst(); isC {
+							inner := &Expr{Op: OpBuiltin, Name: "len", Args: []*Expr{sl.Args[0]}, Type: t, Pos: in.Pos()}
+							e = foldBin(token.SUB, inner, sl.Args[1], t, in.Pos())
+						}
 					}
 				}
 			case "append":
@@ -1128,6 +1188,59 @@ func (p *purity) isPure(f *ssa.Function) bool {
 		p.memo[f] = 2
 	}
 	return r
+}
+
+// storesOnly: module function without loops of its own concern here, whose
+// effects are limited to its own Store/MapUpdate instructions: every call it
+// makes is pure.
+func (p *purity) storesOnly(f *ssa.Function) bool {
+	if f.Blocks == nil || f.Pkg == nil || !strings.HasPrefix(f.Pkg.Pkg.Path(), modPath) {
+		return false
+	}
+	for _, b := range f.Blocks {
+		for _, in := range b.Instrs {
+			switch in := in.(type) {
+			case *ssa.Send, *ssa.Go, *ssa.Select, *ssa.Defer:
+				return false
+			case *ssa.UnOp:
+				if in.Op == token.ARROW {
+					return false
+				}
+			case *ssa.Call:
+				if in.Call.IsInvoke() {
+					return false
+				}
+				switch c := in.Call.Value.(type) {
+				case *ssa.Builtin:
+					switch c.Name() {
+					case "len", "cap", "append", "min", "max", "string":
+					default:
+						return false
+					}
+				case *ssa.Function:
+					if !p.isPure(c) {
+						return false
+					}
+				default:
+					return false
+				}
+			}
+		}
+	}
+	return true
+}
+
+// knownFuncs: the functions of the pinned tree (refs/known_funcs.txt). The
+// rules name functions of this vocabulary; a module function outside it is a
+// helper introduced later and is looked through (inlined) by the path
+// explorer, so that extracting lines into a helper is not a change.
+var knownFuncs map[string]bool
+
+func defaultInline(f *ssa.Function) bool {
+	if knownFuncs == nil || f.Pkg == nil || f.Parent() != nil || !strings.HasPrefix(f.Pkg.Pkg.Path(), modPath) {
+		return false
+	}
+	return !knownFuncs[funcKey(f)]
 }
 
 func (p *purity) compute(f *ssa.Function) bool {
